@@ -13,7 +13,7 @@ CFG = dict(
          "backtick identifiers) rendered in 5 layouts / keyword spellings, each parsed by rsql.NewParser(..).Parse() and rsql.Parse: clause lines vs the "
          "generator's expectation and complete canonical types.Config across layouts (oracle ParserTV.check); direct statements are also executed "
          "(EmitSync on fixed rows) per layout; (totality) rsql.Parse under recover + per-call timeout on byte soup, token soup, mutated valid statements, "
-         "stress inputs. distinct = distinct op line",
+         "stress inputs. distinct = distinct op line Added late: CASE items with numbers right after THEN / ELSE. Every fifth case runs under WithHighPerformance (`preset high`), for C05/C06/C12/C13/C14/C16/C20 another fifth under WithLowLatency (`preset low`); every seventh case follows a noise prelude (failing statements, malformed rows, panicking sink / function in other instances).",
     unproved=[
         "parser totality: rsql.Parse terminates without panic for every input string — NOT proved; searched per run (op `total`: byte soup, token soup, "
         "mutated statements, inputs beyond the parser's iteration bounds, under recover with a 10 s per-call timeout)",
@@ -22,7 +22,7 @@ CFG = dict(
         "parser layout-insensitivity beyond the token stream: proved only up to the lexer (equal token streams); that rsql's parser is a function of the "
         "token stream is false in general (parseLimit, parseOrderBy, parseWith and an error path read the raw input) and is checked per generated statement "
         "across 5 layouts, not proved",
-        "not in the reference grammar (covered only by the totality search): analytic functions with OVER, SUBSET / AFTER MATCH SKIP / PERMUTE in MATCH_RECOGNIZE, array indexing, nested function calls in select items Added late: CASE items with numbers right after THEN / ELSE. Every fifth case runs under WithHighPerformance (`preset high`), for C05/C06/C12/C13/C14/C16/C20 another fifth under WithLowLatency (`preset low`); every seventh case follows a noise prelude (failing statements, malformed rows, panicking sink / function in other instances).",
+        "not in the reference grammar (covered only by the totality search): analytic functions with OVER, SUBSET / AFTER MATCH SKIP / PERMUTE in MATCH_RECOGNIZE, array indexing, nested function calls in select items",
     ],
     assumptions=[
         "SEARCH, not proof: parser totality (op `total`) explores a finite sample of inputs per run; a pass means no panic/hang was found",
